@@ -957,6 +957,16 @@ def strip_copies(e):
     while e is not None:
         if e.get('k') == 'construct' and e.get('copy_or_move') and len(e['args']) == 1:
             e = e['args'][0]
+        elif e.get('k') == 'call' and (e.get('callee') or '').split('<')[0] in ('std::move', 'std::forward', 'std::as_const') and len(e.get('args', [])) == 1 and e.get('obj') is None:
+            e = e['args'][0]          # std::move(x) denotes x (whether x may be moved from is a question some rules ask of the call itself)
+        elif e.get('k') == 'cast':
+            # a cast wrapped around a copy / move: keep peeling only when something value-preserving follows
+            inner = e.get('e')
+            if inner is not None and ((inner.get('k') == 'construct' and inner.get('copy_or_move')) or
+                                      (inner.get('k') == 'call' and (inner.get('callee') or '').split('<')[0] in ('std::move', 'std::forward', 'std::as_const'))):
+                e = inner
+            else:
+                break
         else:
             break
     return e
